@@ -628,3 +628,79 @@ Proof.
   destruct (reads_select_latest (d_seqno d) I (k_tree ks) k V L) as [G S]. split; [exact G|].
   eexists. split; [exact S|]. split; [apply scan_sorted|]. intros k' v. apply (scan_matches_reads I d ks k' v DI Iks).
 Qed.
+
+(* ======================= after any history, operation sequences refine the reference maps ======================= *)
+(* without a filter table no keyspace has a filter, also after recovery and deletion *)
+Lemma replay_items_kpres cfg s meta mp items : forall kss, kpres kss (replay_items cfg s kss meta mp items).
+Proof.
+  unfold replay_items. induction items as [|it r IH]; intros kss; cbn [fold_left]; [apply kpres_refl|].
+  eapply kpres_trans; [|apply IH]. destruct (alookup (ri_ks it) meta) as [name|]; [|apply kpres_refl].
+  destruct (blookup name mp) as [id|]; [|apply kpres_refl]. apply kpres_map. intros x.
+  destruct (k_id x =? id); [|reflexivity]. destruct (_ && _); reflexivity.
+Qed.
+Lemma replay_clears_kpres cfg s meta mp clears : forall sq kss, kpres kss (snd (replay_clears cfg s (sq, kss) meta mp clears)).
+Proof.
+  unfold replay_clears. induction clears as [|c r IH]; intros sq kss; cbn [fold_left]; [apply kpres_refl|].
+  destruct (alookup c meta) as [name|]; [|apply IH]. destruct (blookup name mp) as [id|]; [|apply IH].
+  destruct (existsb _ kss); [|apply IH]. eapply kpres_trans; [|apply IH]. apply kpres_map. intros x. destruct (k_id x =? id); reflexivity.
+Qed.
+Lemma replay_fold_kpres cfg meta mp bs : forall sq kss, kpres kss (snd (fold_left (replay_batch cfg meta mp) bs (sq, kss))).
+Proof.
+  induction bs as [|b r IH]; intros sq kss; cbn [fold_left]; [apply kpres_refl|].
+  assert (K : kpres kss (snd (replay_batch cfg meta mp (sq, kss) b))).
+  { unfold replay_batch. eapply kpres_trans; [apply replay_items_kpres|apply replay_clears_kpres]. }
+  destruct (replay_batch cfg meta mp (sq, kss) b) as [sq' kss']. cbn [snd] in K. eapply kpres_trans; [exact K|apply IH].
+Qed.
+Lemma recover_sealed_fold_kpres cfg meta mp sealed : forall st, kpres (snd (fst st)) (snd (fst (fold_left (recover_sealed_one cfg meta mp) sealed st))).
+Proof.
+  induction sealed as [|bs r IH]; intros st; cbn [fold_left]; [apply kpres_refl|]. eapply kpres_trans; [|apply IH].
+  destruct st as [[sq kss] acc]. unfold recover_sealed_one. pose proof (replay_fold_kpres cfg meta mp bs sq kss) as K.
+  destruct (fold_left (replay_batch cfg meta mp) bs (sq, kss)) as [sq1 kss1]. cbn [fst snd] in *.
+  eapply kpres_trans; [exact K|]. apply kpres_map. intros x. destruct (alookup (k_id x) _); [|reflexivity].
+  destruct (match t_highest_persisted (k_tree x) with Some p => _ | None => false end); reflexivity.
+Qed.
+
+Lemma reopen_NF d : NF d -> NF (do_reopen as_is d).
+Proof.
+  intros [F _]. unfold do_reopen, recover.
+  match goal with |- context [fold_left (recover_sealed_one as_is ?M ?MP) ?S (0, ?K, [])] =>
+    pose proof (recover_sealed_fold_kpres as_is M MP S (0, K, [])) as K1;
+    assert (K0 : forall k0, In k0 K -> k_filter k0 = None)
+      by (intros k0 I0; rewrite in_map_iff in I0; destruct I0 as [p [<- _]]; cbn [k_filter]; rewrite F;
+          destruct (alookup (fst p) (d_meta d)); reflexivity);
+    destruct (fold_left (recover_sealed_one as_is M MP) S (0, K, [])) as [[sq1 kss1] sealed'] end.
+  match goal with |- context [fold_left (replay_batch as_is ?M ?MP) ?A (sq1, kss1)] =>
+    pose proof (replay_fold_kpres as_is M MP A sq1 kss1) as K2; destruct (fold_left (replay_batch as_is M MP) A (sq1, kss1)) as [sq2 kss2] end.
+  cbn [fst snd] in *. split; [exact F|]. intros ks I. cbn [d_kss] in I.
+  destruct (K2 ks I) as [k1 [I1 E1]]. destruct (K1 k1 I1) as [k0 [I0 E0]]. rewrite E1, E0. apply K0, I0.
+Qed.
+
+Lemma delks_NF d h : NF d -> NF (fst (do_delks d h)).
+Proof.
+  intros [F H]. split.
+  - unfold do_delks. destruct (alookup h (d_handles d)) as [id|]; [|exact F]. destruct (ks_of d id) as [ks|]; [|exact F]. cbn [fst].
+    destruct (blookup (k_name ks) (d_map d)); exact F.
+  - intros ks0 I. unfold do_delks in I. destruct (alookup h (d_handles d)) as [id|]; [|apply H, I].
+    destruct (ks_of d id) as [ks|] eqn:K; [|apply H, I]. cbn [fst] in I.
+    destruct (blookup (k_name ks) (d_map d)); unfold draw_version, set_ks in I; cbn [fst snd d_kss upd upd_reg] in I;
+      rewrite in_map_iff in I; destruct I as [x [E Ix]]; destruct (k_id x =? _); subst ks0; try (apply H, Ix);
+      cbn [k_filter]; apply H, (ks_of_in _ _ _ K).
+Qed.
+
+Lemma rrun_NF ops : forall d, NF d -> NF (fold_left rstep ops d).
+Proof.
+  induction ops as [|o r IH]; intros d H; cbn [fold_left]; [exact H|]. apply IH.
+  destruct o as [w| |h]; cbn [rstep]; [apply wstep_nf, H|apply reopen_NF, H|apply delks_NF, H].
+Qed.
+
+(* C11 in general: whatever history of writes, maintenance, deletions and reopens came before (no filter table), every later
+   sequence of operations acts on the recovered / current content exactly as on a reference map: accepted writes set their
+   key, refused ones and all maintenance change nothing, clears empty, ingestion overlays *)
+Theorem history_then_ops_refine mode (hist : list rop) (ops : list wop) I :
+  let d1 := fold_left rstep hist (db_init mode []) in
+  d_seqno (fold_left wstep ops d1) <= I ->
+  meq (absd I (fold_left wstep ops d1)) (srun d1 ops (absd I d1)).
+Proof.
+  intros d1 L. apply run_refines; [|apply rrun_NF, nf_init|exact L].
+  apply (proj1 (rrun_inv hist (db_init mode []) (dinv_init mode []) (JS_init mode []))).
+Qed.
